@@ -134,7 +134,7 @@ func checkC15(c *Ctx) {
 			"messages are appended without (or regardless of) the per-sender limit: one sender can make the buffer of a topic grow without bound")
 		// counter incremented in the same section
 		okInc := false
-		for _, mu := range mapUpdatesOfField([]*ssa.Function{fn}, b.fCount) {
+		for _, mu := range mapUpdatesOfField(deepFuncs(fn), b.fCount) {
 			if !isLoadOfField(mu.Key, fSource) {
 				continue
 			}
@@ -278,35 +278,48 @@ func checkC15(c *Ctx) {
 		fn := d.Parent()
 		key := d.Common().Args[1]
 		ok := false
-		for _, d2 := range mapDeletesInner(fn, b.fTotals) {
-			// same topic key; sender ranges over senders() of pendingMessages[key]
-			if !(sameValue(d2.Common().Args[1], key) || b.sl.sameRoot(d2.Common().Args[1], key)) {
-				continue
-			}
-			s := b.sl.Slice(d2.Common().Args[0])
-			viaSenders := sliceHas(s, func(v ssa.Value) bool {
-				cl, ok := v.(*ssa.Call)
-				if !ok {
-					return false
+		// the inner deletion may sit in fn itself or in a helper fn calls (shared by Send and sweep):
+		// every candidate is looked at in each calling context that starts in fn
+		for _, g := range b.fns {
+			for _, d2 := range mapDeletesInner(g, b.fTotals) {
+				ctxs, _ := contextsOf(d2.(ssa.Instruction), map[*ssa.Function]bool{fn: true}, b.fns, 2)
+				for _, sc := range ctxs {
+					k2 := sc.Resolve(d2.Common().Args[1])
+					// same topic key; sender ranges over senders() of pendingMessages[key]
+					if !(sameValue(k2, key) || b.sl.sameRoot(k2, key)) {
+						continue
+					}
+					s := b.sl.Slice(d2.Common().Args[0])
+					viaSenders := sliceHas(s, func(v ssa.Value) bool {
+						cl, ok := v.(*ssa.Call)
+						if !ok {
+							return false
+						}
+						cal := staticCallee(&cl.Call)
+						if cal == nil || cal.Name() != "senders" {
+							return false
+						}
+						// receiver is the entry of pendingMessages under the same key
+						rs := b.sl.Slice(cl.Call.Args[0])
+						return sliceHas(rs, func(y ssa.Value) bool {
+							lk, ok := y.(*ssa.Lookup)
+							return ok && lk.Parent() == fn && isLoadOfField(lk.X, b.fPending) && (sameValue(lk.Index, key) || b.sl.sameRoot(lk.Index, key))
+						})
+					})
+					// the instruction of fn that performs the inner deletion: d2 itself or the call leading to it
+					at := d2.(ssa.Instruction)
+					if len(sc.Calls) > 0 {
+						at = sc.Calls[0].(ssa.Instruction)
+					}
+					sameSec := b.la.sectionOf(at, b.boxLock) != nil && b.la.sectionOf(at, b.boxLock) == b.la.sectionOf(d.(ssa.Instruction), b.boxLock)
+					if !sameSec {
+						// both under the lock held on entry (callee of a locked caller)
+						sameSec = b.la.Holds(at, b.boxLock, LockW) && b.la.Holds(d.(ssa.Instruction), b.boxLock, LockW) && len(b.la.callers[fn]) > 0
+					}
+					if viaSenders && sameSec {
+						ok = true
+					}
 				}
-				cal := staticCallee(&cl.Call)
-				if cal == nil || cal.Name() != "senders" {
-					return false
-				}
-				// receiver is the entry of pendingMessages under the same key
-				rs := b.sl.Slice(cl.Call.Args[0])
-				return sliceHas(rs, func(y ssa.Value) bool {
-					lk, ok := y.(*ssa.Lookup)
-					return ok && isLoadOfField(lk.X, b.fPending) && (sameValue(lk.Index, key) || b.sl.sameRoot(lk.Index, key))
-				})
-			})
-			sameSec := b.la.sectionOf(d2.(ssa.Instruction), b.boxLock) != nil && b.la.sectionOf(d2.(ssa.Instruction), b.boxLock) == b.la.sectionOf(d.(ssa.Instruction), b.boxLock)
-			if !sameSec {
-				// both under the lock held on entry (callee of a locked caller)
-				sameSec = b.la.Holds(d2.(ssa.Instruction), b.boxLock, LockW) && b.la.Holds(d.(ssa.Instruction), b.boxLock, LockW) && len(b.la.callers[fn]) > 0
-			}
-			if viaSenders && sameSec {
-				ok = true
 			}
 		}
 		c.Check(ok, O1, FuncName(fn), "delete(pendingMessages, topic) releases the senders' bookkeeping", m.Pos(d.Pos()),
